@@ -7,10 +7,10 @@ package ina
 // document / body position.
 //@ func IsURL
 //@   opaque
-//@   modifies models.URL::*
+//@   modifies models.URL::*!Hops!Redirects
 //@ func IsAPIURL
 //@   opaque
-//@   modifies models.URL::*
+//@   modifies models.URL::*!Hops!Redirects
 //@ func ExtractMedias
 //@   opaque
-//@   modifies models.URL::*
+//@   modifies models.URL::*!Hops!Redirects
